@@ -23,6 +23,12 @@ MAX_RESULT_BLOCKS = 2500
 
 
 REF_ARGC = {}
+REF_SIG = {}
+
+
+def signature(body):
+    """parameter and result types of a body, as written in the fact base"""
+    return '(%s) -> %s' % (', '.join(str(body.locals.get(i, '?')) for i in range(1, body.argc + 1)), body.locals.get(0, '?'))
 
 
 def reference():
@@ -39,6 +45,8 @@ def reference():
             out.add(parts[0])
             if len(parts) > 1 and parts[1].isdigit():
                 REF_ARGC[parts[0]] = int(parts[1])
+            if len(parts) > 2:
+                REF_SIG[parts[0]] = parts[2]
     return out
 
 
@@ -176,6 +184,25 @@ def alias_moved_functions(facts, body_cls, ref):
         rivals = [q for q in new if last(q) == last(p)]
         if len(olds) == 1 and len(rivals) == 1 and facts.bodies[p].argc == facts.ref_argc.get(olds[0], facts.bodies[p].argc):
             out.append((p, olds[0]))
+    # renamed in place: a reference function is gone, no function of its name exists any more, and in the same module / impl
+    # exactly one new function has exactly its signature (parameter and result types) - and it is the only missing function of
+    # that module with that signature. The rules keep addressing it under the reference name.
+    def parent(p):
+        return p.rsplit('::', 1)[0] if '::' in p else ''
+    taken_new = {p for p, _ in out}
+    taken_old = {o for _, o in out}
+    sigs = getattr(facts, 'ref_sig', {})
+    for m in sorted(missing):
+        if m in taken_old or (' as ' in m and '>::' in m) or m not in sigs:
+            continue
+        if any(last(q) == last(m) for q in cur):
+            continue
+        cands = [p for p in new if p not in taken_new and parent(p) == parent(m) and signature(facts.bodies[p]) == sigs[m]]
+        rivals = [m2 for m2 in missing if m2 not in taken_old and parent(m2) == parent(m) and sigs.get(m2) == sigs[m]]
+        if len(cands) == 1 and len(rivals) == 1:
+            out.append((cands[0], m))
+            taken_new.add(cands[0])
+            taken_old.add(m)
     if not out:
         return []
     recs = {q: b.rec for q, b in facts.bodies.items()}
@@ -331,12 +358,66 @@ def desugar_table_searches(facts, body_cls):
     return out
 
 
+PRIM = r'(?:[iu](?:8|16|32|64|128|size)|f32|f64)'
+
+
+def lower_primitive_operator_calls(facts, body_cls):
+    """`a / b` with b: &i64 is the trait call `<i64 as Div<&i64>>::div(a, b)`, `r %= u` with u: &i64 is
+    `<i64 as RemAssign<&i64>>::rem_assign(&mut r, u)`: the std impls for primitives forward to the primitive operator on the
+    dereferenced operands. Rewritten to the primitive `binop` statement the by-value spelling gives, so that the rules see one
+    form. Returns the number of calls rewritten."""
+    import re
+    rx = re.compile(r"^<(&?)(%s) as core::ops::(?:arith::)?(Add|Sub|Mul|Div|Rem)(Assign)?<(&?)(%s)>>::(\w+)$" % (PRIM, PRIM))
+    n = 0
+    for q, b in list(facts.bodies.items()):
+        rec = b.rec
+        hit = False
+        for bl in rec['blocks']:
+            t = bl['term']
+            if t.get('k') != 'call' or not t.get('callee'):
+                continue
+            m = rx.match(t['callee'].get('path', ''))
+            if not m or len(t['args']) != 2 or t.get('target') is None or t.get('target', -1) < 0:
+                continue
+            lref, lty, op, assign, rref, rty, _name = m.groups()
+            if lty != rty:
+                continue
+
+            def val(o, is_ref):
+                pl = o.get('copy') or o.get('move')
+                if pl is None:
+                    return copy.deepcopy(o) if not is_ref else None
+                if not is_ref:
+                    return {'copy': copy.deepcopy(pl)}
+                return {'copy': {'local': pl['local'], 'proj': list(pl['proj']) + ['deref'], 'ty': lty}}
+            if assign:
+                dst = t['args'][0].get('copy') or t['args'][0].get('move')
+                if dst is None:
+                    continue
+                lhs = {'local': dst['local'], 'proj': list(dst['proj']) + ['deref'], 'ty': lty}
+                a = {'copy': copy.deepcopy(lhs)}
+            else:
+                lhs = copy.deepcopy(t['dest'])
+                a = val(t['args'][0], bool(lref))
+            bv = val(t['args'][1], bool(rref))
+            if a is None or bv is None:
+                continue
+            bl['stmts'].append({'k': 'assign', 'lhs': lhs, 'rv': 'binop', 'op': op, 'ops': [a, bv], 'loc': t.get('loc', ''), 'exp': t.get('exp', False), 'lowered_from': t['callee']['path']})
+            bl['term'] = {'k': 'goto', 'target': t['target'], 'loc': t.get('loc', ''), 'exp': t.get('exp', False)}
+            hit = True
+            n += 1
+        if hit:
+            facts.bodies[q] = body_cls(rec, facts)
+    return n
+
+
 def splice_new_helpers(facts, body_cls):
     """see module docstring; returns [(helper path, [callers])] for the evidence"""
     ref = reference()
     if ref is None:
         return []
     facts.ref_argc = dict(REF_ARGC)
+    facts.ref_sig = dict(REF_SIG)
     facts.moved = alias_moved_functions(facts, body_cls, ref)
     cand = {}
     for p, b in facts.bodies.items():
@@ -417,11 +498,11 @@ def freeze(repo='/repo'):
     for cfg in ('dev', 'release', 'debug-rules'):
         path, digest, secs = build.build_facts(cfg, repo)
         f = Facts(path, splice=False)
-        paths.update({p: b.argc for p, b in f.bodies.items() if b.kind in ('fn', 'method')})
+        paths.update({p: (b.argc, signature(b)) for p, b in f.bodies.items() if b.kind in ('fn', 'method')})
     with open(REF, 'w', encoding='utf-8') as out:
-        out.write('# function inventory of the reference tree: path<TAB>number of parameters (python3 -m scv.inline --freeze); see scv/inline.py\n')
+        out.write('# function inventory of the reference tree: path<TAB>number of parameters<TAB>signature (python3 -m scv.inline --freeze); see scv/inline.py\n')
         for p in sorted(paths):
-            out.write('%s\t%d\n' % (p, paths[p]))
+            out.write('%s\t%d\t%s\n' % (p, paths[p][0], paths[p][1]))
     print('%d functions written to %s' % (len(paths), REF))
 
 
